@@ -300,7 +300,41 @@ func checkC02(c *core.Ctx) error {
 	checkConversions(c, pkg)
 	checkRegistries(c, pkg)
 	checkOwnGetters(c, pkg)
+	checkStablePrimitives(c, pkg)
 	return nil
+}
+
+// ---------------------------------------------------------------------------
+// R8: operations whose defining identity cancels (erfc = 1 - erf, log1p = log(1 + x), log erfc) take their value from the
+// dedicated primitive. R1 compares values as real functions, for which 1 - erf(x) IS erfc(x); in the storage type it is
+// not: 1 - erf(6) is 0 where erfc(6) is 2e-17, which every storage type represents. The rule is the float-level
+// complement of R1 for exactly the functions where the real-number identity hides a total loss of precision.
+
+var stablePrimitive = map[string]string{"erfc": "math.Erfc", "log1p": "math.Log1p", "logerfc": "github.com/pbenner/autodiff/special.LogErfc"}
+
+func checkStablePrimitives(c *core.Ctx, pkg *packages.Package) {
+	c.Rule("C02.R8", "Erfc, Log1p and LogErfc obtain their value from the dedicated primitive (math.Erfc, math.Log1p, special.LogErfc), not from the cancelling identity", 30)
+	info := pkg.TypesInfo
+	for _, T := range allScalarTypes {
+		for _, name := range []string{"Erfc", "Log1p", "LogErfc", "ERFC", "LOG1P", "LOGERFC"} {
+			fd := core.FindMethod(pkg, T, name)
+			if fd == nil {
+				continue
+			}
+			want := stablePrimitive[strings.ToLower(name)]
+			found := false
+			ast.Inspect(fd.Body, func(x ast.Node) bool {
+				if ce, ok := x.(*ast.CallExpr); ok {
+					if fn := core.Callee(info, ce); fn != nil && fn.Pkg() != nil && fn.Pkg().Path()+"."+fn.Name() == want {
+						found = true
+					}
+				}
+				return true
+			})
+			c.Check(found, "C02.R8", "("+T+")."+name, "value taken from "+want, fd.Pos(),
+				"("+T+")."+name+" never calls "+want+": computing the function through its defining identity (1 - erf, log(1 + x), log(erfc)) loses all significant digits where the operands cancel, so the value is not the named function up to the precision of the storage type")
+		}
+	}
 }
 
 // ---------------------------------------------------------------------------
@@ -338,10 +372,51 @@ func checkOwnGetters(c *core.Ctx, pkg *packages.Package) {
 				}
 				return true
 			})
+			lname := strings.ToLower(name)
+			// an order operation that asks an operand (not the receiver) for the order lets the operand's dynamic type decide
+			// it: `a.Smaller(b)` compares in a's representation, not in the receiver's
+			if lname == "min" || lname == "max" || lname == "greater" || lname == "smaller" {
+				recvName := ""
+				if fd.Recv != nil && len(fd.Recv.List) > 0 && len(fd.Recv.List[0].Names) > 0 {
+					recvName = fd.Recv.List[0].Names[0].Name
+				}
+				deleg := ""
+				var dpos token.Pos
+				ast.Inspect(fd.Body, func(x ast.Node) bool {
+					ce, ok := x.(*ast.CallExpr)
+					if !ok {
+						return true
+					}
+					sel, ok := ast.Unparen(ce.Fun).(*ast.SelectorExpr)
+					if !ok {
+						return true
+					}
+					switch strings.ToLower(sel.Sel.Name) {
+					case "greater", "smaller", "sign", "equals", "min", "max":
+					default:
+						return true
+					}
+					id, ok := ast.Unparen(sel.X).(*ast.Ident)
+					if !ok || id.Name == recvName {
+						return true
+					}
+					if v, isVar := info.Uses[id].(*types.Var); isVar && isScalarOperandType(v.Type(), T) {
+						// the receiver of Greater/Smaller is itself an operand of the comparison: x.Greater(y) with x the
+						// method's receiver is the own representation; any other scalar variable is an operand
+						deleg = id.Name + "." + sel.Sel.Name
+						dpos = ce.Pos()
+					}
+					return true
+				})
+				if deleg != "" {
+					c.Fail("C02.R7", cons, "operands read with "+ownGetter[T], dpos,
+						"decides the order by calling "+deleg+": the comparison is carried out in the representation of that operand's dynamic type, not in the receiver's own representation "+ownGetter[T])
+					continue
+				}
+			}
 			if n == 0 {
 				continue // delegates (Min/Max through Set, Abs through Sign)
 			}
-			lname := strings.ToLower(name)
 			ring := lname == "neg" || lname == "add" || lname == "sub" || lname == "mul" || lname == "div"
 			if ring && !strings.HasPrefix(T, "Int") {
 				continue // float types may compute in float64 and round on store
@@ -604,4 +679,25 @@ func checkRegistries(c *core.Ctx, pkg *packages.Package) {
 		c.Check(registered[T]["RegisterMagicScalar"], "C02.R5", T, "registered as MagicScalar", token.NoPos,
 			"type "+T+" implements MagicScalar but never calls RegisterMagicScalar: NewMagicScalar/NullMagicScalar panic for it")
 	}
+}
+
+// isScalarOperandType: a scalar interface (ConstScalar, Scalar, MagicScalar) or a (pointer to a) concrete scalar type other than own.
+func isScalarOperandType(t types.Type, own string) bool {
+	if p, ok := t.(*types.Pointer); ok {
+		t = p.Elem()
+	}
+	n, ok := t.(*types.Named)
+	if !ok {
+		return false
+	}
+	switch n.Obj().Name() {
+	case "ConstScalar", "Scalar", "MagicScalar":
+		return true
+	}
+	for _, T := range allScalarTypes {
+		if n.Obj().Name() == T && T != own {
+			return true // a concrete operand of another type; an operand of the receiver's own type compares in the own representation
+		}
+	}
+	return false
 }
